@@ -2,6 +2,7 @@
 #pragma once
 #include "allocators.h"
 #include "common.h"
+#include "guard.h"
 
 namespace vparse {
 
@@ -118,6 +119,20 @@ static void cmd(const std::vector<std::string>& t, std::string& out) {
     size_t before = vh::GuardAllocator::live();
     run<GuardDoc>(t, out);
     if (out != "bad-op" && vh::GuardAllocator::live() != before) out += " guardleak";
+  } else if (t[1].compare(0, 6, "upool-") == 0) {
+    // upool-<N>: MemoryPoolAllocator over a USER-SUPPLIED buffer of exactly N bytes that ends at a PROT_NONE page (so it starts at an
+    // address = -N mod 8: every misalignment is reached by varying N); a pool that claims more than the buffer faults on the overhang
+    uint64_t n;
+    if (!parse_u64(t[1].substr(6), n) || n < 72 || n > (1u << 20)) {
+      out = "bad-op";
+      return;
+    }
+    GuardBlock gb((size_t)n);
+    memset(gb.p, 0x5A, (size_t)n);
+    {
+      sonic_json::MemoryPoolAllocator<> a(gb.p, (size_t)n);
+      run<PoolDoc>(t, out, &a);
+    }
   } else if (t[1] == "gpool") {
     size_t before = vh::GuardAllocator::live();
     {
